@@ -173,17 +173,38 @@ impl Check for C18 {
         tier.pick(40, 480)
     }
     fn rule(&self) -> String {
-        "case = a generated multi-replica history. (a) For EVERY change of it: Change::from_bytes(raw_bytes) and Change::from_bytes(bytes() — the DEFLATE form when the change is large enough) must give a change with equal hash, raw bytes and metadata; Change::from(c.decode()) must have the same hash and bytes and decode to the same expanded change. (b) Bundles: every subset of the history for ≤ 6 changes, otherwise random, causally closed and deliberately non-closed subsets: bundle(S) → Bundle::try_from(bytes) → to_changes() must return exactly S with byte-identical raw bytes; load_incremental(bundle bytes) into a document (empty, or holding a random causally closed part of the history) must leave it observably identical (heads, change set, queue, missing deps, OBS) to apply_changes(S) on a clone; a bundle of a causally closed set must also load as a stand-alone document. (c) 12 hand-built expanded changes per case within the documented ranges (all scalar kinds incl. NaN, -0.0, i64/u64 extremes, unknown type codes; every action; map and sequence keys; preds; 0–3 other actors; counters up to 2^31; 0–3 deps; extra bytes; messages none/empty/600 bytes): encode → from_bytes → decode must equal the input field by field and re-encode to the same hash. Non-trivial = change with ≥2 actors, a pred or > 256 bytes; bundle subset that is not causally closed or has ≥3 changes; distinct by hash set.".into()
+        "case = a generated multi-replica history (one case in 16 is big: 150–260 steps of 2–4 interleaved actors, so that bundles hold dozens of changes, plus one change of more than 10 000 ops that also touches the root object). (a) For EVERY change of it: Change::from_bytes(raw_bytes) and Change::from_bytes(bytes() — the DEFLATE form when the change is large enough) must give a change with equal hash, raw bytes and metadata; Change::from(c.decode()) must have the same hash and bytes and decode to the same expanded change. (b) Bundles: every subset of the history for ≤ 6 changes, otherwise random, causally closed and deliberately non-closed subsets: bundle(S) → Bundle::try_from(bytes) → to_changes() must return exactly S with byte-identical raw bytes; load_incremental(bundle bytes) into a document (empty, or holding a random causally closed part of the history) must leave it observably identical (heads, change set, queue, missing deps, OBS) to apply_changes(S) on a clone; a bundle of a causally closed set must also load as a stand-alone document. (c) 12 hand-built expanded changes per case within the documented ranges (all scalar kinds incl. NaN, -0.0, i64/u64 extremes, unknown type codes; every action; map and sequence keys; preds; 0–3 other actors; counters up to 2^31; 0–3 deps; extra bytes; messages none/empty/600 bytes): encode → from_bytes → decode must equal the input field by field and re-encode to the same hash. Non-trivial = change with ≥2 actors, a pred or > 256 bytes; bundle subset that is not causally closed or has ≥3 changes; distinct by hash set.".into()
     }
     fn required_counters(&self) -> Vec<&'static str> {
-        vec!["changes_roundtripped", "compressed_forms_roundtripped", "expanded_reencoded", "bundles_roundtripped", "bundles_not_causally_closed", "bundle_loads_compared", "bundles_loaded_standalone", "handmade_changes"]
+        vec!["big_cases", "changes_with_10000_ops", "bundles_over_20_changes", "changes_roundtripped", "compressed_forms_roundtripped", "expanded_reencoded", "bundles_roundtripped", "bundles_not_causally_closed", "bundle_loads_compared", "bundles_loaded_standalone", "handmade_changes"]
     }
-    fn run_case(&self, cx: &mut Ctx, _case: u64, rng: &mut Rng) {
+    fn run_case(&self, cx: &mut Ctx, case: u64, rng: &mut Rng) {
         let enc = enc_for(rng);
         let n = rng.range(2, 4);
         let prof = if rng.chance(30) { Profile::storage() } else { Profile::contention() };
         let mut w = World::new(rng, n, enc, prof);
-        w.run(rng, rng.clone().range(3, cx.tier.pick(40, 120)));
+        // one case in 16 is "big": a long history of interleaved actors (bundles of dozens of changes)
+        // and one change with more than 10 000 ops (the row-wise change encoder is only used above
+        // that size) that also touches the root object
+        let big = case % 16 == 5;
+        if big {
+            cx.count("big_cases");
+            w.run(rng, rng.clone().range(150, 260));
+            let t = w.gs.objs.iter().find(|(_, t)| *t == ObjType::Text).map(|(i, _)| i.clone());
+            if let Some(t) = t {
+                let r = rng.below(n);
+                if w.docs[r].object_type(&t).is_ok() {
+                    let body: String = (0..10_050).map(|i| char::from(b'a' + (i % 26) as u8)).collect();
+                    let _ = w.docs[r].splice_text(&t, 0, 0, &body);
+                    let _ = w.docs[r].put(automerge::ROOT, "after-paste", 1);
+                    let _ = w.docs[r].delete(automerge::ROOT, "k0");
+                    w.commit(r);
+                    cx.count("changes_with_10000_ops");
+                }
+            }
+        } else {
+            w.run(rng, rng.clone().range(3, cx.tier.pick(40, 120)));
+        }
         // one or two large changes (> 256 bytes: the DEFLATE form exists)
         for r in 0..rng.range(1, 2).min(n) {
             for _ in 0..rng.range(25, 70) {
@@ -315,6 +336,9 @@ impl Check for C18 {
             };
             let bytes = bun.bytes().to_vec();
             cx.count("bundles_roundtripped");
+            if set.len() > 20 {
+                cx.count("bundles_over_20_changes");
+            }
             if !closed {
                 cx.count("bundles_not_causally_closed");
             }
@@ -477,10 +501,10 @@ impl Check for C19 {
         tier.pick(40, 480)
     }
     fn rule(&self) -> String {
-        "case = a generated multi-replica history. Round trips: every object id (bytes; Display → import), cursors taken at every sampled position of every list/text (both move modes, Start/End; bytes and string forms), every actor id (hex string, bytes), every change hash (hex string, bytes), the sync State of both ends of a real two-peer session at several points (decode(encode(s)) keeps shared_heads and is a fixed point) and EVERY message of that session (decode(encode(m)) == m; counted per message kind). Resolution: each id/cursor decoded from its bytes and from its string is used in replicas that contain the object but number actors differently (merged into a document whose actor sorts first, load(save()), a document built by applying the changes in another order, the other replicas): reads of the object through the decoded id at the origin replica's heads must equal the origin's own reads, and get_cursor_position at those heads must equal the origin's position. Non-trivial = id/cursor resolved in a replica whose actor table differs; messages carrying changes or a have; distinct by encoded bytes.".into()
+        "case = a generated multi-replica history. Round trips: every object id (bytes; Display → import), cursors taken at every sampled position of every list/text (both move modes, Start/End; bytes and string forms), every actor id (hex string, bytes), every change hash (hex string, bytes), the sync State of both ends of a real two-peer session at several points (decode(encode(s)) keeps shared_heads and is a fixed point) and EVERY message of that session (decode(encode(m)) == m; counted per message kind). The session also toggles read-only on both ends so that the READ_ONLY and SYNC_RESET flags travel. Resolution: each id decoded from its bytes is also used in replicas with FEWER actors (holding only the ancestors of an early head set: the id's actor-index hint may lie beyond their actor table) and must read there what the origin reads at those heads; each id/cursor decoded from its bytes and from its string is used in replicas that contain the object but number actors differently (merged into a document whose actor sorts first, load(save()), a document built by applying the changes in another order, the other replicas): reads of the object through the decoded id at the origin replica's heads must equal the origin's own reads, and get_cursor_position at those heads must equal the origin's position. Non-trivial = id/cursor resolved in a replica whose actor table differs; messages carrying changes or a have; distinct by encoded bytes.".into()
     }
     fn required_counters(&self) -> Vec<&'static str> {
-        vec!["objid_roundtrips", "cursor_roundtrips", "actor_roundtrips", "hash_roundtrips", "state_roundtrips", "message_roundtrips", "messages_with_changes", "ids_resolved_in_other_replica", "cursors_resolved_in_other_replica", "replicas_with_shifted_actor_table"]
+        vec!["objid_roundtrips", "cursor_roundtrips", "actor_roundtrips", "hash_roundtrips", "state_roundtrips", "message_roundtrips", "messages_with_changes", "ids_resolved_in_other_replica", "ids_resolved_in_smaller_replica", "replicas_with_fewer_actors", "cursors_resolved_in_other_replica", "replicas_with_shifted_actor_table", "read_only_toggles_in_session"]
     }
     fn run_case(&self, cx: &mut Ctx, _case: u64, rng: &mut Rng) {
         let enc = enc_for(rng);
@@ -586,6 +610,54 @@ impl Check for C19 {
                 }
             }
         }
+        // --- a replica with FEWER actors: it holds only the ancestors of an early head set of the
+        // origin, so ids produced by the origin carry actor-index hints that may lie beyond its actor
+        // table; reads there must equal the origin's reads at those heads
+        {
+            let known: BTreeSet<ChangeHash> = origin.get_changes(&[]).iter().map(|c| c.hash()).collect();
+            let mut early: Vec<Vec<ChangeHash>> = w.head_sets.iter().filter(|h| !h.is_empty() && h.iter().all(|x| known.contains(x))).cloned().collect();
+            early.sort_by_key(|h| amv::gen::ancestors(&w.ledger, h).len());
+            early.truncate(3);
+            for h in early {
+                let anc = amv::gen::ancestors(&w.ledger, &h);
+                let cs: Vec<automerge::Change> = w.topo_changes().into_iter().filter(|c| anc.contains(&c.hash())).collect();
+                let created_in = |id: &ObjId| -> bool {
+                    match id {
+                        ObjId::Root => true,
+                        ObjId::Id(c, a, _) => cs.iter().any(|ch| ch.actor_id() == a && u64::from(ch.start_op()) <= *c && *c < u64::from(ch.start_op()) + ch.len() as u64),
+                    }
+                };
+                let mut partial = fresh(enc, 65);
+                if partial.apply_changes(cs.clone()).is_err() {
+                    continue;
+                }
+                cx.count("replicas_with_fewer_actors");
+                for (id, typ) in &ids {
+                    let Ok(did) = ObjId::try_from(&id.to_bytes()[..]) else { continue };
+                    // only objects created by a change the smaller replica holds
+                    if !created_in(id) {
+                        continue;
+                    }
+                    let want = observe_from(&origin, Some(&h), id, *typ);
+                    cx.count("ids_resolved_in_smaller_replica");
+                    match catch(|| (partial.object_type(&did).is_ok(), observe_from(&partial, None, &did, *typ).snap)) {
+                        Ok((exists, got)) => {
+                            if !exists {
+                                cx.violation("decoded-objid-not-resolved-in-smaller-replica", format!("object {} was created by a change among the ancestors of {:?}, but its decoded id does not resolve in a replica holding exactly those changes", exid_str(id), hash_hex(&h)), det("smaller replica".into()));
+                                return;
+                            }
+                            if exists {
+                                if let Some(diff) = first_diff(&want.snap, &got) {
+                                    cx.violation("decoded-objid-resolves-differently|smaller-replica", format!("object {} read through its decoded id in a replica holding only the ancestors of {:?} differs from the origin at those heads: {diff}", exid_str(id), hash_hex(&h)), det("smaller replica".into()));
+                                    return;
+                                }
+                            }
+                        }
+                        Err(_) => cx.count("panics_left_to_C37"),
+                    }
+                }
+            }
+        }
         // --- cursors
         for (id, typ) in ids.iter().filter(|(_, t)| matches!(t, ObjType::List | ObjType::Text)) {
             let len = origin.length(id);
@@ -686,14 +758,21 @@ impl Check for C19 {
         let mut net = Net::new(docs, w.gs.clone(), &[(0, 1)]);
         for step in 0..rng.range(6, 30) {
             let p = rng.below(2);
-            match rng.below(10) {
+            match rng.below(12) {
                 0..=3 => {
                     net.gen(0, p);
                 }
                 4..=7 => {
                     net.deliver(0, p);
                 }
-                _ => net.edit(p, rng, 2),
+                8 | 9 => net.edit(p, rng, 2),
+                _ => {
+                    // read-only toggles put the READ_ONLY and (after switching back) SYNC_RESET flags
+                    // on the wire
+                    let v = !net.links[0].ro[p];
+                    net.set_read_only(0, p, v);
+                    cx.count("read_only_toggles_in_session");
+                }
             }
             if step % 3 == 0 {
                 for e in 0..2 {
@@ -719,6 +798,9 @@ impl Check for C19 {
                     }
                 }
             }
+        }
+        for e in 0..2 {
+            net.set_read_only(0, e, false);
         }
         let _ = net.run_to_quiescence(200);
         cx.add("message_roundtrips", net.msgs_sent);
